@@ -215,6 +215,7 @@ def apply (m : MList) : Act → MList
   | .setCursor (some c) => if m.active c then { m with cursor := some c } else m
   | .regSection n => if m.active n then m else { m with secNodes := n :: m.secNodes }   -- the node is new: never linked yet
   | .section n =>
+      if !m.isSec n then m else           -- BaseBuilder::section only ever passes a SectionNode
       if !m.active n then
         -- add_after(node, last_node()); _cursor = node      (fixes/C08-4: an empty list gets the node as its only element)
         { m with list := m.list ++ [n], cursor := some n, dirty := true }
